@@ -72,7 +72,12 @@ namespace sqf::runtime
             /// <summary>
             /// Returned on success.
             /// </summary>
-            ok
+            ok,
+            /// <summary>
+            /// An exit behavior restarted the frame, but the frame has no instruction
+            /// to execute. Control goes back to the caller instead of spinning here.
+            /// </summary>
+            yield
         };
         enum class seekpos
         {
@@ -178,6 +183,10 @@ namespace sqf::runtime
 
         sqf::runtime::diagnostics::diag_info diag_info_from_position() const
         {
+            if (m_instruction_set.empty())
+            {
+                return sqf::runtime::diagnostics::diag_info{};
+            }
             if (m_position == position_invalid)
             {
                 return (*m_instruction_set.begin())->diag_info();
@@ -281,10 +290,12 @@ namespace sqf::runtime
                     m_exit_behavior = m_exit_behavior->get_behavior();
                     seek(0, ::sqf::runtime::frame::seekpos::start);
                     clear_values_helper(runtime);
+                    if (m_instruction_set.empty()) { return result::yield; }
                     goto start; // do not call here, reuse current stack
                 case behavior::result::seek_start:
                     seek(0, ::sqf::runtime::frame::seekpos::start);
                     clear_values_helper(runtime);
+                    if (m_instruction_set.empty()) { return result::yield; }
                     goto start; // do not call here, reuse current stack
                 case behavior::result::exchange:
                     m_instruction_set = m_exit_behavior->get_instruction_set(*this);
@@ -298,6 +309,7 @@ namespace sqf::runtime
                     dbg_str();
 
 #endif // DF__SQF_RUNTIME__ASSEMBLY_DEBUG_ON_EXECUTE
+                    if (m_instruction_set.empty()) { return result::yield; }
                     goto start; // do not call here, reuse current stack
                 case behavior::result::fail: /* do nothing */ break;
                 case behavior::result::ok: /* do nothing */ break;
